@@ -142,7 +142,19 @@ def run(ctx):
                         one = tm.fconst(1.0, int(dst[1:]) // 8)
                         zero = tm.fconst(0.0, int(dst[1:]) // 8)
                         exp_alt.append(ite(x, one, zero))
-                        if not any(lanes[0] is e_ for e_ in exp_alt):
+                        def bits_select(t_):
+                            # a bit pattern whose every bit is constant or the mask lane itself: (mask & 1.0) | (!mask & 0.0), i.e. select(mask, 1.0, 0.0)
+                            if t_.op != 'bits' or len(t_.args) != 8 * tm.csize(one):
+                                return False
+                            v1 = 0
+                            for i_, b_ in enumerate(t_.args):
+                                if b_ is x or b_ is tm.TRUE:
+                                    v1 |= 1 << i_
+                                elif b_ is not tm.FALSE:
+                                    return False
+                            v0 = sum(1 << i_ for i_, b_ in enumerate(t_.args) if b_ is tm.TRUE)
+                            return v1 == tm.cbits(one) and v0 == tm.cbits(zero)
+                        if not any(lanes[0] is e_ for e_ in exp_alt) and not bits_select(lanes[0]):
                             ctx.violation('R-CONV', cfg, name, dict(where, problem='mask lane converts to %s, expected 1.0 / 0.0' % tm.show(lanes[0], 0, 5)[:200]))
                             continue
                         ctx.holds('R-CONV', cfg, name)
